@@ -9,6 +9,7 @@ import (
 	"fmt"
 	"hash/fnv"
 	"os"
+	"runtime"
 	"runtime/debug"
 	"sort"
 	"strings"
@@ -256,6 +257,42 @@ func Guard(kind string, fn func() *Failure) (f *Failure) {
 		}
 	}()
 	return fn()
+}
+
+// Watchdog runs fn; if it has not returned after d the case is considered stuck: all goroutine
+// stacks are captured, the fail file is written and the process exits (a stuck case cannot be
+// shrunk).  The decision is only taken when a progress counter did not move during a second
+// observation window.  progress may be nil.
+func Watchdog(rec *Recorder, c any, d time.Duration, progress func() int64, fn func() *Failure) *Failure {
+	done := make(chan *Failure, 1)
+	go func() { done <- fn() }()
+	timer := time.NewTimer(d)
+	defer timer.Stop()
+	select {
+	case f := <-done:
+		return f
+	case <-timer.C:
+	}
+	var p0 int64
+	if progress != nil {
+		p0 = progress()
+	}
+	select {
+	case f := <-done:
+		return f
+	case <-time.After(d / 3):
+	}
+	if progress != nil && progress() != p0 {
+		// still moving: wait it out
+		return <-done
+	}
+	buf := make([]byte, 1<<18)
+	n := runtime.Stack(buf, true)
+	f := &Failure{Kind: "no-progress", Sig: "no-progress", Msg: fmt.Sprintf("the case did not finish within %v and made no progress during another %v", d, d/3), Detail: string(buf[:n])}
+	rec.WriteFail(c, f)
+	fmt.Printf("VERIF-FAIL no-progress: case stuck, stacks written to the fail file\n")
+	os.Exit(1)
+	return f
 }
 
 // Prop runs a rapid property: gen draws a case, check evaluates it.  Cases whose
